@@ -107,6 +107,19 @@ def run(tier, seed, which="C13"):
         # protein: nucleotide-looking start, then clearly protein (premise b: more than a quarter protein-only letters overall)
         prot = [gen.rand_seq(rng, "ACGT", head) + gen.rand_seq(rng, "EFILPQ" * 3 + "DHKMRSVWY", tail) for _ in range(3)]
         cases.append(dict(id="shift_prot%d" % i, grp="shift_prot%d" % i, seqs=prot, names=gen.names(rng, 3), mode="fasta", vec=dict(kind="protein, first %d residues ACGT" % head)))
+    # stray non-ASCII bytes among the residues (Latin-1 / UTF-8 debris, exotic masking symbols): they are not letters, so
+    # they are neither residues nor evidence; chosen so that, with the top bit dropped, they would spell letters of the other kind
+    for i in range(4 if tier == "quick" else 24):
+        if i % 2 == 0:
+            base = gen.family(rng, 4, 60, gen.DNA if i % 4 else gen.RNA, sub=0.1, indel=0.02)
+            junk = [chr(0x80 | ord(c)) for c in "KWDEFILPQ"]
+        else:
+            base = [x + "LKEFLKEF" for x in gen.family(rng, 4, 40, "GATSCEFILPQ", sub=0.1, indel=0.02)]
+            junk = [chr(0x80 | ord(c)) for c in "Uu"]
+        frac = rng.choice([0.2, 0.5, 1.0])
+        noisy = ["".join(c + (rng.choice(junk) if rng.random() < frac else "") for c in x) for x in base]
+        cases.append(dict(id="stray%d" % i, grp="stray%d" % i, seqs=base, rows_as_written=noisy, names=gen.names(rng, 4), mode="fasta",
+                          vec=dict(kind="%s residues with stray bytes >= 0x80 (%.0f per 100 residues)" % ("nucleotide" if i % 2 == 0 else "protein", 100 * frac))))
     # more than 512 records: the composition of the file as a whole decides, wherever the nucleotide-looking records sit
     prot = [gen.rand_seq(rng, gen.AA, 25) for _ in range(515)]
     pep = [gen.rand_seq(rng, "ACGTN", 25) for _ in range(40)]
@@ -122,7 +135,7 @@ def run(tier, seed, which="C13"):
         for k, c in enumerate(batches[bi]):
             lines.append("note CASE %d" % k)
             pad = c.get("pad", 0)
-            rows = c["seqs"]
+            rows = c.get("rows_as_written", c["seqs"])
             if c["mode"] in ("afa", "clu", "msf"):
                 # an aligned presentation: pad rows to one width with gap characters (and heavier padding if asked)
                 W = max(len(s) for s in rows) * (1 + pad) + 1
